@@ -255,6 +255,11 @@ def r20_3(run):
             txt = ' '.join(src(r_).replace(' ', '') for r_ in roots)
             okr = 'self.expires-self.created' in txt
             run.ob('R20.3', up, c, 'a re-timed mapping is re-armed for (new expiry - now)', okr, slot='retime-amount', message='expiry.reset(%s)' % (src(a) if a is not None else ''))
+            if isinstance(a, ast.Call) and dotted(a.func) in ('max', 'min'):
+                cs = [const(x) for x in a.args if const(x) is not NOCONST]
+                okm = dotted(a.func) == 'max' and all(isinstance(v, (int, float)) and v == 0 for v in cs)
+                run.ob('R20.3', up, c, 'the re-arm delay is clamped at zero only (an expiry in the past fires now, every other delay is kept)', okm, slot='retime-clamp',
+                       message='Addr.update re-arms with %s: a mapping whose new expiry is nearer than the clamp outlives it' % src(a)[:50])
     # "now" (self.created) is taken afresh in every call before it is used to compute a delay
     cr = [n for n in g.real_nodes() if n.kind == 'stmt' and assign_to(n.ast, 'self.created') is not None]
     okc = bool(cr) and all('utcnow()' in src(assign_to(n.ast, 'self.created')) or 'now(' in src(assign_to(n.ast, 'self.created')) for n in cr)
@@ -380,6 +385,7 @@ MUTANTS = [
     M('stale-filter-inverted', F, "if v is a and k != params[0]]:", "if v is not a and k != params[0]]:", ['R20.2']),
     M('rekey-after-update', F, "            self.addr[params[1]] = a\n            a.update(*params)\n\n        else:", "            a.update(*params)\n            self.addr[params[1]] = a\n\n        else:", ['R20.5']),
     M('seconds-again', F, "self.expiry.reset(max(0, diff.total_seconds()))", "self.expiry.reset(max(0, diff.seconds))", ['R20.1']),
+    M('retime-clamped-at-one', F, "self.expiry.reset(max(0, diff.total_seconds()))", "self.expiry.reset(max(1, diff.total_seconds()))", ['R20.3']),
     M('retime-by-difference', F, "                diff = self.expires - self.created\n                self.expiry.reset(max(0, diff.total_seconds()))", "                diff = self.expires - oldexpires\n                self.expiry.delay(diff.total_seconds())", ['R20.3']),
     M('calllater-seconds', F, "callLater(diff.total_seconds(),", "callLater(diff.seconds,", ['R20.1']),
     M('expire-name-only', F, "        for k in [k for (k, v) in self.map.addr.items() if v is self]:\n            del self.map.addr[k]", "        del self.map.addr[self.name]", ['R20.2']),
